@@ -203,6 +203,9 @@ def check_case(ctx, pm, H, tmpdir):
         if onfile != t1:
             problems.append("dump(path) bytes differ from dumps()")
         problems.extend(F.first_diff(expected, F.real_state(re3, kind)))
+        from rv import formats as _formats
+        _fmt = {"rpms": "rpms", "modules": "modules", "extra": "extra_files"}[kind]
+        problems.extend(_formats.entry_point_problems(_formats.modules(), _fmt, real, t1, tmpdir))
     except Exception as e:
         problems = ["file round trip raised %s: %s" % (type(e).__name__, e)]
     finally:
